@@ -128,6 +128,23 @@ def atomic_subscribe(run, model, w):
                             'one-element list - the second store removes the first subscriber'), obligation=True)
 
 
+def kind_independence(run, model, w, rule='KIND.wiring'):
+    """the decision and the update for one subscription kind look only at that kind's registry (the helper's parameter)"""
+    h = w.helper
+    regs = set(w.registry.values())
+    selfn = w.subscribe.params[0]
+    bad = []
+    for n in walk_shallow(h.node):
+        d = dotted(n) if isinstance(n, ast.Attribute) else None
+        if d and d.startswith(selfn + '.') and d.split('.', 1)[1] in regs:
+            bad.append(d)
+        if isinstance(n, ast.Call) and isinstance(n.func, ast.Attribute) and dotted(n.func.value) == selfn and n.func.attr in ('subscribed', 'subscribe'):
+            bad.append(norm(n.func) + '(...)')
+    run.inst(rule, h, 'the decision for one kind reads only that kind\'s registry', not bad,
+             '' if not bad else ('while registering a queue for one kind the helper also consults %s: a queue already subscribed with the other kind is taken for registered and its '
+                                 'subscription of this kind is silently dropped (its events keep coming through the other delivery thread)' % sorted(set(bad))), obligation=True)
+
+
 def check(run, model, tier):
     run.explanation = ('Identity-versus-content operator census on the subscription registry, per-path modification counts of subscribe(), '
                        'dataflow wiring of kind -> registry -> thread -> fabric queue, and loop-shape analysis of the two delivery threads. '
@@ -145,6 +162,11 @@ def check(run, model, tier):
     sub = w.subscribe
     run.touch(sub)
     run.touch(h)
+    run.inst('KIND.wiring', sub, 'each kind is registered in the registry its own delivery thread reads', w.consistent,
+             '' if w.consistent else ('subscribe(queue_type=k) writes registries %s but the delivery threads were started with %s: subscriptions of one kind are '
+                                      'delivered by the other kind\'s thread, or by nobody' % (w.registry, sorted(w.threads))), obligation=True)
+    if not w.consistent:
+        return
     g = cfg_of(h)
     regp = h.params[0]
     queue_name = sub.params[1]
@@ -223,6 +245,7 @@ def check(run, model, tier):
         run.inst('KIND.wiring', sub, '%s -> %s -> %s' % (kind, reg, th['runner'].name), True, nontrivial=True, obligation=True)
         ok = len(th['queue']) == 1
         run.inst('KIND.wiring', w.start, 'thread for %s gets one fabric queue (%s)' % (reg, th['queue']), ok, 'fabric queue of the thread not identified', obligation=True)
+    kind_independence(run, model, w)
     qs = [w.threads[r]['queue'][0] for r in w.threads if w.threads[r]['queue']]
     run.inst('KIND.wiring', w.start, 'the two threads read different fabric queues', len(set(qs)) == 2,
              'both delivery threads read the same fabric queue: each publication is delivered by one kind only', obligation=True)
